@@ -54,14 +54,21 @@ def run(c):
                 body["reference_scenario"] = ref.path
                 c.violation("order:%s:%s" % (key, s.id), "C12: the implementation's database for %s (%s) differs from the one for %s: %s" % (s.id, s.desc[:120], ref.id, json.dumps(d)[:300]),
                             body, found=True)
-        # forward references resolve: no ordering may report an error the reference ordering does not
+        # forward references resolve: the generated database is uniquely named and every reference in it
+        # leads to a definition, so no ordering of it may report anything
+        if key == "generated":
+            for s in ok:
+                if s.impl_errors():
+                    c.violation("generated-errors:%s" % s.id, "C12: forward references do not resolve: loading %s (%s) reports %s" % (s.id, s.desc[:100], s.impl_errors()[:3]),
+                                lc.replay_body(s, {"errors": s.impl_errors()[:50]}), found=True)
+        # no ordering may report an error the reference ordering does not
         for s in ok:
             if s.impl_errors() and not ref.impl_errors():
                 c.violation("errors:%s" % s.id, "C12: ordering %s reports errors %s" % (s.id, s.impl_errors()[:4]), lc.replay_body(s), found=True)
     c.coverage["traces_validated_against_impl"] = stats.get("dump_lines_compared", 0)
     c.coverage.update({
         "evaluations": len(scens), "exhaustive": False,
-        "rule": "orderings of the bundled definition list (identity, reversal, two rotations, random permutations), the bundled text cut into 2-3 files at category boundaries and loaded in every/shuffled file order, and a generated database (chain of depth 300, 200 fan-in units, a prefix user) in identity / reversed / random order; for each: implementation dump == model dump, and all dumps of a group are identical (%d comparisons in %d groups)" % (stats.get("orderings_compared", 0), ngroups),
+        "rule": "orderings of the bundled definition list (identity, reversal, two rotations, random permutations), the bundled text cut into 2-3 files at category boundaries and loaded in every/shuffled file order, and a generated database (chain of depth 300, a 400-long chain whose alphabetically first name depends on all the others, 200 fan-in units, prefix / plural / ambiguous readings) in identity / reversed / random order; for each: implementation dump == model dump, and all dumps of a group are identical (%d comparisons in %d groups)" % (stats.get("orderings_compared", 0), ngroups),
         "samples": [{"scenario": s.id, "desc": s.desc[:160], "dump_lines": len(s.impl), "errors": len(s.impl_errors())} for s in scens[:40]],
         "input_distribution": {"scenarios": len(scens), **stats},
     })
